@@ -13,8 +13,8 @@ All theorems quantify over `3 ≤ N ≤ 6`, every rotation `p < N`, every fill `
 * `ordered_headers_spec`, `no_assert`
 * `start_places_partial` — both iterations of `start`: the two positions that follow the newest slot (slots 0 and 1 on a
   blank ring), numbered `next_seq`, `next_seq²`.
-* `app_status_resumes_partial` — the pair `app_boot_status` resumes is the newest (firmware, parity) pair iff both are in
-  progress, of the right kinds and of the same fragment size; `remediate_covers`, `cancel_covers`: every other slot
+* `app_pair_spec`, `app_status_resumes_partial` — the pair `app_boot_status` resumes is the newest (firmware, parity) pair
+  iff both are in progress, of the right kinds, of the same fragment size and the firmware geometry fits the slot; `remediate_covers`, `cancel_covers`: every other slot
   that reads "in progress" is aborted or erased (resume case), every slot that reads "in progress" is aborted
   (idle case).
 * `write_in_slot` — for the model with `rangeCheckWithOffset = true`, every operation an accepted fragment write
@@ -22,11 +22,15 @@ All theorems quantify over `3 ≤ N ≤ 6`, every rotation `p < N`, every fill `
   check, parity fragment #1300 (fragment size 40, 64 KiB slots, 10 data fragments) is accepted and programmed into
   the NEXT slot.
 
+* `reasonable_iff`, `start_rejects_unrepresentable` — since the repair `start` rejects, without touching the device,
+  every geometry a header cannot represent (fragment size 0 or > 256, fragment count 0 or > 16384).
+* `appBootStatus_eq` — `app_boot_status` is "read the ordered headers, take the pure decision `appDecision`, act on
+  it"; an implausible firmware header makes the pair not resumable instead of being returned as an error
+  (`app_status_error_witness` shows the difference to the pinned logic on the state a power loss inside `start` leaves).
+
 Not covered by a theorem (tied by suite D8 instead): that the erase + 28-byte header program of `start` turn the
 slot's parsed header into the header written (codec round trip, C11), and the effect of the abort / erase
-operations of `app_boot_status` on the parsed headers.  Finding (reported by D8, reproduced by
-`app_status_error_witness`): when the second-newest slot is a parity slot `app_boot_status` returns an error
-instead of cancelling.
+operations of `app_boot_status` on the parsed headers.
 -/
 set_option linter.unusedSimpArgs false
 namespace Fuota.C20
@@ -156,13 +160,11 @@ instance (f p : Header) : Decidable (Resumable f p) := by unfold Resumable; infe
 def hdrAt (N p s0 : Nat) (H : Nat → Header) (i : Nat) : Header :=
   { H i with seq := (s0 + (i + N - p) % N) % 4294967295 }
 
-/-- **app_status_resumes** (`_partial`: decision level; missing hypothesis — after `writeExtAborted` / `eraseSlot`
-    a slot's header no longer parses with `ext = inProgress`, which is the status-code part of C11 at flash level;
-    suite D8 checks "no other slot in progress afterwards" on the real flash): on every consistent ring state `app_boot_status` selects exactly the newest
+/-- the kind / status / size part of the decision (`appPair`): on every consistent ring state it selects exactly the newest
     pair — physical slots `p+k-2` (firmware) and `p+k-1` (parity) — when the ring holds at least two slots and that
     pair is an in-progress firmware/parity pair of one fragment size; in every other case it selects nothing
     (and reports idle after cancelling, see `cancel_covers`). -/
-theorem app_status_resumes_partial (N p k s0 : Nat) (H : Nat → Header) (hN : 3 ≤ N) (hN6 : N ≤ 6) (hp : p < N) (hk : k ≤ N) :
+theorem app_pair_spec (N p k s0 : Nat) (H : Nat → Header) (hN : 3 ≤ N) (hN6 : N ≤ 6) (hp : p < N) (hk : k ≤ N) :
     ∃ o, orderHeaders (ringIH N p k s0 H) = some o ∧
       appPair o =
         if 2 ≤ k ∧ Resumable (hdrAt N p s0 H ((p + k - 2) % N)) (hdrAt N p s0 H ((p + k - 1) % N)) then
@@ -244,13 +246,210 @@ theorem remediate_spares_pair (fIdx pIdx : Nat) (hs : List IH) (i : Nat) (r : Re
       subst this
       exact ⟨fun e => hc (Or.inl e), fun e => hc (Or.inr e)⟩
 
-/-- finding (witness): two newest slots = (parity with 16384 fragments, firmware), both in progress — the state a
-    power loss between the two header writes of `start` leaves.  `is_reasonably_sized` is evaluated on the PARITY
-    header (40 * 16384 bytes do not fit a 64 KiB slot), so `app_boot_status` returns `SegmentsTooLarge` before it
-    cancels anything. -/
+/-! ### the decision of the repaired `app_boot_status` -/
+
+/-- the firmware header announces a geometry that fits the slot (`is_reasonably_sized`) -/
+def fits (slotSize : Nat) (h : Header) : Bool :=
+  match reasonablySized slotSize h.size h.n with
+  | .ok _ => true
+  | .error _ => false
+
+/-- the pair the repaired `app_boot_status` resumes: an implausible firmware header makes the pair not resumable -/
+def appDecision (slotSize : Nat) (hs : List IH) : Option (IH × Header × IH × Header) :=
+  match getTwoNewest hs with
+  | none => none
+  | some (older, newer) =>
+    match older.hdr, newer.hdr with
+    | some f, some _ =>
+      (match reasonablySized slotSize f.size f.n with | .error _ => none | .ok () => appPair hs)
+    | _, _ => none
+
+/-- what `app_boot_status` does once a pair was / was not selected -/
+def appAfter (slotSize : Nat) (hs : List IH) : Option (IH × Header × IH × Header) → M (Option Act)
+  | none => do cancelAll slotSize hs; pure none
+  | some (fo, f, po, p) => do
+    remediate slotSize fo.idx po.idx hs
+    let fwMask ← tryCatch (some <$> loadStatus slotSize fo.idx f.n) (fun _ => pure none)
+    match fwMask with
+    | none => cancelAll slotSize hs; pure none
+    | some fwMask =>
+      let parMask ← tryCatch (some <$> loadStatus slotSize po.idx p.n) (fun _ => pure none)
+      match parMask with
+      | none => cancelAll slotSize hs; pure none
+      | some parMask =>
+        pure (some { slotSize := slotSize, segSize := f.size, fwIdx := fo.idx, parIdx := po.idx,
+                     totalFw := f.n, remFw := f.n - countBits fwMask f.n,
+                     totalPar := p.n, remPar := p.n - countBits parMask p.n })
+
+/-- **the model's `app_boot_status` is: order the headers, decide (`appDecision`), act** — in particular no size
+    error is returned any more: without a resumable pair everything in progress is cancelled and Idle reported. -/
+theorem appBootStatus_eq (nslots slotSize : Nat) :
+    appBootStatus nslots slotSize =
+      (do let hs ← getOrderedHeaders nslots slotSize
+          appAfter slotSize hs (appDecision slotSize hs)) := by
+  unfold appBootStatus
+  congr
+  funext hs
+  unfold appDecision
+  cases getTwoNewest hs with
+  | none => rfl
+  | some t =>
+    obtain ⟨older, newer⟩ := t
+    simp only
+    cases older.hdr with
+    | none => rfl
+    | some f =>
+      cases newer.hdr with
+      | none => rfl
+      | some p =>
+        simp only
+        cases reasonablySized slotSize f.size f.n with
+        | error e => rfl
+        | ok u =>
+          simp only
+          cases appPair hs with
+          | none => rfl
+          | some q => obtain ⟨fo, f', po, p'⟩ := q; rfl
+
+/-- **app_status_resumes** (`_partial`: decision level; missing hypothesis — after `writeExtAborted` / `eraseSlot`
+    a slot's header no longer parses with `ext = inProgress`, which is the status-code part of C11 at flash level;
+    suite D8 checks "no other slot in progress afterwards" on the real flash): on every consistent ring state the
+    repaired `app_boot_status` resumes exactly the newest pair — physical slots `p+k-2` (firmware) and `p+k-1`
+    (parity) — when the ring holds at least two slots, that pair is an in-progress firmware/parity pair of one
+    fragment size and the firmware geometry fits the slot; in every other case it selects nothing, cancels
+    (`cancel_covers`) and reports idle (`appBootStatus_eq`). -/
+theorem app_status_resumes_partial (slotSize N p k s0 : Nat) (H : Nat → Header) (hN : 3 ≤ N) (hN6 : N ≤ 6) (hp : p < N)
+    (hk : k ≤ N) :
+    ∃ o, orderHeaders (ringIH N p k s0 H) = some o ∧
+      appDecision slotSize o =
+        if 2 ≤ k ∧ fits slotSize (hdrAt N p s0 H ((p + k - 2) % N)) = true ∧
+            Resumable (hdrAt N p s0 H ((p + k - 2) % N)) (hdrAt N p s0 H ((p + k - 1) % N)) then
+          some (ihAt N p k s0 H ((p + k - 2) % N), hdrAt N p s0 H ((p + k - 2) % N),
+                ihAt N p k s0 H ((p + k - 1) % N), hdrAt N p s0 H ((p + k - 1) % N))
+        else none := by
+  obtain ⟨o, ho, hpair⟩ := app_pair_spec N p k s0 H hN hN6 hp hk
+  refine ⟨o, ho, ?_⟩
+  rcases Nat.eq_zero_or_pos k with rfl | hk1
+  · rw [ordered_headers_blank N p s0 H hN hN6] at ho
+    cases ho
+    unfold appDecision
+    rw [getTwoNewest_blank N p s0 H hN hN6]
+    simp
+  · rw [ordered_headers_spec N p k s0 H hN hN6 hp hk1 hk] at ho
+    cases ho
+    unfold appDecision
+    rcases Nat.lt_or_ge k 2 with hlt | hge
+    · have : k = 1 := by omega
+      subst this
+      rw [getTwoNewest_one N p s0 H hN hN6 hp]
+      simp
+    · rw [getTwoNewest_ring N p k s0 H hN hN6 hp hge hk]
+      have hf : ((p + k - 2) % N + N - p) % N < k := by
+        have hN' : N = 3 ∨ N = 4 ∨ N = 5 ∨ N = 6 := by omega
+        rcases hN' with rfl | rfl | rfl | rfl <;> omega
+      have hq : ((p + k - 1) % N + N - p) % N < k := by
+        have hN' : N = 3 ∨ N = 4 ∨ N = 5 ∨ N = 6 := by omega
+        rcases hN' with rfl | rfl | rfl | rfl <;> omega
+      have e1 : (ihAt N p k s0 H ((p + k - 2) % N)).hdr = some (hdrAt N p s0 H ((p + k - 2) % N)) := by
+        simp only [ihAt, hf, ↓reduceIte, hdrAt]
+      have e2 : (ihAt N p k s0 H ((p + k - 1) % N)).hdr = some (hdrAt N p s0 H ((p + k - 1) % N)) := by
+        simp only [ihAt, hq, ↓reduceIte, hdrAt]
+      simp only [e1, e2, hpair, hge, true_and, fits]
+      cases reasonablySized slotSize (hdrAt N p s0 H ((p + k - 2) % N)).size (hdrAt N p s0 H ((p + k - 2) % N)).n with
+      | error e => simp
+      | ok u => simp
+
+/-- the decision of the PINNED `app_boot_status` (kept as documentation of the repaired defect): the error of
+    `is_reasonably_sized(..)?` on the second-newest header was returned before anything was cancelled -/
+def appDecisionPinned (slotSize : Nat) (hs : List IH) : Except MErr (Option (IH × Header × IH × Header)) :=
+  match getTwoNewest hs with
+  | none => .ok none
+  | some (older, newer) =>
+    match older.hdr, newer.hdr with
+    | some f, some _ =>
+      (match reasonablySized slotSize f.size f.n with | .error e => .error e | .ok () => .ok (appPair hs))
+    | _, _ => .ok none
+
+/-- the ring a power loss between the two header writes of a second `start(40, 12)` leaves on four 64 KiB slots:
+    firmware (seq 0), parity (seq 1, 16384 fragments), firmware (seq 2), blank — all in progress -/
+def crashRing : List IH :=
+  let h (k : Kind) (seq n : Nat) : Header :=
+    { kind := k, seq := seq, size := 40, n := n, ext := .inProgress, ist := .inProgress, boot := .untested }
+  [{ idx := 0, hdr := some (h .firmware 0 10) }, { idx := 1, hdr := some (h .parity 1 16384) },
+   { idx := 2, hdr := some (h .firmware 2 12) }, { idx := 3, hdr := none }]
+
+/-- **witness of the repaired defect** (`app-status-err`): on `crashRing` the two newest slots are (parity with 16384
+    fragments, firmware).  The pinned logic evaluated `is_reasonably_sized` on the parity header (40 · 16384 bytes do
+    not fit) and returned `SegmentsTooLarge` on every boot; the repaired logic selects no pair, so that
+    `app_boot_status` cancels every in-progress slot and reports idle. -/
 theorem app_status_error_witness :
-    reasonablySized 65536 40 16384 = .error .segmentsTooLarge ∧ reasonablySized 65536 40 10 = .ok () :=
-  ⟨rfl, rfl⟩
+    (orderHeaders crashRing).map (appDecisionPinned 65536) = some (.error .segmentsTooLarge) ∧
+    (orderHeaders crashRing).map (appDecision 65536) = some none ∧
+    (orderHeaders crashRing).map cancelActs = some [0, 1, 2] := by
+  refine ⟨rfl, rfl, rfl⟩
+
+/-! ## `start` rejects what a header cannot represent (since the repair) -/
+
+/-- **accept iff**: the repaired `is_reasonably_sized` accepts exactly the geometries a header can represent and
+    whose image fits the data region (slot sizes below `2^32`) -/
+theorem reasonable_iff (slot sz n : Nat) (hslot : slot < 2 ^ 32) :
+    reasonablySized slot sz n = .ok () ↔
+      (1 ≤ sz ∧ sz ≤ 256 ∧ 1 ≤ n ∧ n ≤ 16384 ∧ sz * n ≤ slot - 17408) := by
+  unfold reasonablySized maxDataSize
+  simp only [show Orig.MAX_SEGMENT_SIZE = 256 from rfl, show Orig.MAX_SEGMENTS = 16384 from rfl,
+    show Orig.HEADER_SIZE = 1024 from rfl]
+  by_cases h1 : sz = 0 ∨ sz > 256
+  · simp only [h1, ↓reduceIte]
+    constructor
+    · intro h; cases h
+    · intro h; omega
+  · simp only [h1, ↓reduceIte]
+    by_cases h2 : n = 0 ∨ n > 16384
+    · simp only [h2, ↓reduceIte]
+      constructor
+      · intro h; cases h
+      · intro h; omega
+    · simp only [h2, ↓reduceIte]
+      have hm : ¬ slot - 1024 - 16384 ≥ 2 ^ 32 := by omega
+      have hprod : sz * n ≤ 256 * 16384 := Nat.mul_le_mul (by omega) (by omega)
+      have hp : ¬ sz * n ≥ 2 ^ 32 := by omega
+      simp only [hm, hp, ↓reduceIte]
+      by_cases h3 : sz * n > slot - 1024 - 16384
+      · simp only [h3, ↓reduceIte]
+        constructor
+        · intro h; cases h
+        · intro h; omega
+      · simp only [h3, ↓reduceIte]
+        constructor
+        · intro _; omega
+        · intro _; trivial
+
+/-- **start_rejects_unrepresentable**: fragment size 0 or > 256, fragment count 0 or > 16384 — `start` returns the
+    size error and the device (flash, operation log, counters) is exactly as before, for every device state.  The
+    situation of the former finding `start-unrepresentable-geometry` (firmware and parity in ONE slot) cannot arise. -/
+theorem start_rejects_unrepresentable (nslots slot sz n : Nat) (d : Dev)
+    (h : sz = 0 ∨ sz > 256 ∨ n = 0 ∨ n > 16384) :
+    ∃ e, (e = MErr.segmentsTooLarge ∨ e = MErr.tooManySegments) ∧
+      (Orig.start nslots slot sz n).run d = (.error e, d) := by
+  have hr : ∃ e, (e = MErr.segmentsTooLarge ∨ e = MErr.tooManySegments) ∧ reasonablySized slot sz n = .error e := by
+    unfold reasonablySized
+    simp only [show Orig.MAX_SEGMENT_SIZE = 256 from rfl, show Orig.MAX_SEGMENTS = 16384 from rfl]
+    by_cases h1 : sz = 0 ∨ sz > 256
+    · exact ⟨_, Or.inl rfl, by simp only [h1, ↓reduceIte]⟩
+    · have h2 : n = 0 ∨ n > 16384 := by omega
+      exact ⟨_, Or.inr rfl, by simp only [h1, h2, ↓reduceIte]⟩
+  obtain ⟨e, he, hr⟩ := hr
+  refine ⟨e, he, ?_⟩
+  unfold Orig.start
+  simp only [hr]
+  rfl
+
+/-- every rejected `start` leaves the device untouched (whatever the reason) -/
+theorem start_rejects_untouched (nslots slot sz n : Nat) (e : MErr) (d : Dev)
+    (h : reasonablySized slot sz n = .error e) : (Orig.start nslots slot sz n).run d = (.error e, d) := by
+  unfold Orig.start
+  simp only [h]
+  rfl
 
 /-! ## fragment writes -/
 
@@ -339,7 +538,8 @@ def witnessAct : Act :=
   { slotSize := 65536, segSize := 40, fwIdx := 0, totalFw := 10, remFw := 10,
     parIdx := 1, totalPar := 16384, remPar := 16384 }
 
-/-- **write_beyond_slot_witness** (pinned model, `rangeCheckWithOffset = false`): `write_segment(10 + 1300, 40 bytes)`
+/-- **write_beyond_slot_witness** (the PINNED range check, `rangeCheckWithOffset = false`; the repaired code and the
+    driver default are `true`): `write_segment(10 + 1300, 40 bytes)`
     is accepted and its data program starts at byte 134904 — slot 2, offset 3832 — although the fragment belongs
     to the parity slot 1; with the offset in the check it is refused. -/
 theorem write_beyond_slot_witness :
